@@ -10,7 +10,7 @@ from ..core import Ctx, Report
 from ..effects import MaySuspend
 from ..model import norm, FuncInfo
 from ..paths import enumerate_paths, no_raise, Path
-from .proto import proto_classes, method, protocol_paths, tags, loop_callbacks, net_mayraise, feasible
+from .proto import only_reached_from, proto_classes, method, protocol_paths, tags, loop_callbacks, net_mayraise, feasible
 
 PID = "C06"
 LEVEL = "other"
@@ -57,7 +57,7 @@ def r1(ctx, rep, ci):
     sr = method(ctx, ci, "send_request")
     allowed_writers = {"__init__", "_send_request", "_max_retries_reached", "_close_transport"}
     classes = [c for c in prog.mro(ci) if hasattr(c, "methods")]
-    from ..inventory import KNOWN_FUNCS
+    from ..inventory import KNOWN_FUNCS, is_known
 
     def effects(m, depth=0):
         """(stores of in-flight attributes [(attr, value)], transmits) of m, including the helpers a later change
@@ -73,7 +73,7 @@ def r1(ctx, rep, ci):
                     snd = True
                 elif depth < 4:
                     for g in res.resolve_call(n, m).funcs:
-                        if g.qualname not in KNOWN_FUNCS and not g.is_lambda and g is not m:
+                        if not is_known(g, prog) and not g.is_lambda and g is not m:
                             st2, snd2 = effects(g, depth + 1)
                             st.extend(st2)
                             snd = snd or snd2
@@ -81,7 +81,7 @@ def r1(ctx, rep, ci):
 
     for c in classes:
         for m in c.methods.values():
-            if m in cbs or (m.qualname not in KNOWN_FUNCS and res.callers_of(m)):
+            if m in cbs or (not is_known(m, prog) and res.callers_of(m)):
                 continue   # a called helper outside the inventory is accounted to its callers; an uncalled one is an entry point
             all_stores, sends = effects(m)
             stores = set()
@@ -102,7 +102,7 @@ def r1(ctx, rep, ci):
             caller = ct.caller
             if caller.cls is not None and caller.cls is not ci and not prog.is_subclass(ci, caller.cls):
                 continue  # a call in the sibling class resolves here only through the shared base
-            ok = caller is sr
+            ok = only_reached_from(ctx, caller, [ctx.prog.find_method(c, "send_request") for c in list.__iter__(proto_classes(ctx))])
             rep.check(ok, "C06.R1", "caller:%s.%s<-%s" % (ci.name, hname, caller.short), caller.loc(ct.node),
                       "%s is called from %s.send_request" % (hname, ci.name),
                       bad="%s is called from %s, outside the locked region of send_request" % (h.short, caller.short))
@@ -247,32 +247,47 @@ def r4_execute(ctx, rep, ms: MaySuspend):
 
 # ----------------------------------------------------------------------- R5
 def r5(ctx, rep, ci):
+    """On every path of send_request that transmits: one future is created, that object is handed to _send_request,
+    awaited, and - when the wait completes normally - returned (symbolic values, so the three steps may sit in a helper)."""
+    from ..replay import Replay
     fn = method(ctx, ci, "send_request")
-    body_nodes = list(ast.walk(fn.node))
-    created = [n for n in body_nodes if isinstance(n, ast.Assign) and isinstance(n.value, ast.Call)
-               and (call_chain(n.value) or ("",))[-1] == "create_future" and isinstance(n.targets[0], ast.Name)]
     ok, why = True, ""
-    if len(created) != 1:
-        ok, why = False, "expected one local future created per activation, found %d" % len(created)
-    else:
-        name = created[0].targets[0].id
-        awaited = [n for n in body_nodes if isinstance(n, ast.Await) and not isinstance(n.value, ast.Call)]
-        inner = [n for n in body_nodes if isinstance(n, ast.Call) and call_chain(n) == ("self", "_send_request")]
-        rets = [n for n in body_nodes if isinstance(n, ast.Return) and n.value is not None and not isinstance(n.value, (ast.Await, ast.Call))]
-        if not awaited or any(norm(a.value) != name for a in awaited):
-            ok, why = False, "awaits %s instead of its own future '%s'" % (", ".join(norm(a.value) for a in awaited) or "nothing", name)
-        elif not inner or any(len(c.args) < 2 or norm(c.args[1]) != name for c in inner):
+    nsend = 0
+    for p in protocol_paths(ctx, fn):
+        sends = [i for i, ev in enumerate(p.events) if ev.kind == "call" and "inner_send" in tags(ev)]
+        if not sends:
+            continue
+        nsend += 1
+        rp = Replay(ctx.prog, fn, p)
+        i = sends[0]
+        created = [k for k, ev in enumerate(p.events[:i]) if ev.kind == "call" and (call_chain(ev.node) or ("",))[-1] == "create_future"]
+        call = p.events[i].node
+        if len(created) != 1:
+            ok, why = False, "expected one future created per activation before the transmission, found %d" % len(created)
+            break
+        fut = rp.sym_at(created[0] + 1).lin(p.events[created[0]].node)
+        if len(call.args) < 2 or rp.sym_at(i).lin(call.args[1]) != fut:
             ok, why = False, "does not hand its own future to _send_request"
-        elif not rets or any(norm(r.value) != name for r in rets):
-            ok, why = False, "returns %s instead of its own future '%s'" % (", ".join(norm(r.value) for r in rets) or "nothing", name)
-        else:
-            # _send_request binds that parameter as the in-flight future
-            h = method(ctx, ci, "_send_request")
-            p2 = h.params[2] if len(h.params) > 2 else None
-            binds = any(isinstance(n, ast.Assign) and any(a == "response_future" for a, _, _ in self_store(n)) and isinstance(n.value, ast.Name) and n.value.id == p2
-                        for n in ast.walk(h.node))
-            if not binds:
-                ok, why = False, "_send_request does not bind the future it is given as self.response_future"
+            break
+        awaited = [k for k in range(i + 1, len(p.events)) if p.events[k].kind in ("await", "raise") and isinstance(p.events[k].node, ast.Await)
+                   and not isinstance(p.events[k].node.value, ast.Call)]
+        if not awaited or any(rp.sym_at(k).lin(p.events[k].node.value) != fut for k in awaited):
+            ok, why = False, "awaits %s instead of its own future" % (", ".join(norm(p.events[k].node.value) for k in awaited) or "nothing")
+            break
+        completed = not any(ev.kind in ("raise", "catch") for ev in p.events[i:])
+        if completed and not (p.end == "return" and p.end_node.value is not None and rp.sym.lin(p.end_node.value) == fut):
+            ok, why = False, "returns %s instead of its own future" % (norm(p.end_node.value) if p.end == "return" and p.end_node.value is not None else "nothing")
+            break
+    if ok and nsend == 0:
+        ok, why = False, "no path of send_request transmits"
+    if ok:
+        # _send_request binds that parameter as the in-flight future
+        h = method(ctx, ci, "_send_request")
+        p2 = h.params[2] if len(h.params) > 2 else None
+        binds = any(isinstance(n, ast.Assign) and any(a == "response_future" for a, _, _ in self_store(n)) and isinstance(n.value, ast.Name) and n.value.id == p2
+                    for n in ast.walk(h.node))
+        if not binds:
+            ok, why = False, "_send_request does not bind the future it is given as self.response_future"
     rep.check(ok, "C06.R5", "own-future:%s" % ci.name, fn.loc(), "%s.send_request waits on and returns the future of this activation" % ci.name,
               bad="%s.send_request %s: a caller could receive another request's answer" % (ci.name, why))
 
